@@ -54,11 +54,15 @@ def shapes():
     fil = {'type': 'file', 'spec_version': '2.1', 'id': 'file--' + G.UUID, 'name': 'f', 'size': 0, 'hashes': {'MD5': 'b' * 32},
            'extensions': {'ntfs-ext': {'sid': 's', 'alternate_data_streams': [{'name': 'n', 'size': 0}]}}}
     # nested path steps of one and two characters (dictionary keys): language codes, observed-data member keys
+    # sibling names where one extends the other with a hyphen ('en' has children, 'en-us' follows it only in dictionary order, not in the order of dotted paths)
     lang = {'type': 'language-content', 'spec_version': '2.1', 'id': 'language-content--' + G.UUID, 'created': G.T1, 'modified': G.T1, 'object_ref': 'identity--' + G.UUID2,
-            'object_modified': G.T1, 'contents': {'de': {'name': 'n', 'description': ''}, 'fr': {'name': 'm'}}}
+            'object_modified': G.T1, 'contents': {'de': {'name': 'n', 'description': ''}, 'fr': {'name': 'm'}, 'en': {'name': 'e'}, 'en-us': {'name': 'u', 'description': 'd'}}}
+    # a list with more than ten elements: '[10]' sorts before '[2]' as text
+    many = {'type': 'report', 'spec_version': '2.1', 'id': 'report--' + G.UUID, 'created': G.T1, 'modified': G.T1, 'name': 'r', 'published': G.T1,
+            'labels': [f'l{i}' for i in range(12)], 'object_refs': ['identity--' + G.UUID2[:-2] + f'{i:02d}' for i in range(11)]}
     od20 = {'type': 'observed-data', 'id': 'observed-data--' + G.UUID, 'created': G.T1, 'modified': G.T1, 'first_observed': G.T1, 'last_observed': G.T1, 'number_observed': 1,
             'objects': {'0': {'type': 'file', 'name': 'f', 'size': 0}, 'a1': {'type': 'domain-name', 'value': 'x.y'}}}
-    return {'malware21': base21, 'location21': loc, 'indicator21': ind, 'tool20': base20, 'indicator20': ind20, 'relationship21': rel, 'file21': fil, 'language-content21': lang, 'observed-data20': od20}
+    return {'malware21': base21, 'location21': loc, 'indicator21': ind, 'tool20': base20, 'indicator20': ind20, 'relationship21': rel, 'file21': fil, 'language-content21': lang, 'observed-data20': od20, 'report21 (long lists)': many}
 
 
 def near_misses(d):
@@ -161,4 +165,4 @@ def run(chk):
             if not want and got is True:
                 return (f'accept#{rname}', f'{name}: selector {sel!r} addresses nothing but is accepted by {rname}', {'selector': sel})
     chk.bounded('selectors: every path and near misses x every entry point', list(cases()), check, classify=lambda c: (c[0], c[1]),
-                bound='9 object shapes (2.0 and 2.1; SDO, SRO, SCO with extension, language content and observed-data with one- and two-character dictionary keys) x every path x near misses x 10 entry points; near misses also at every position of a selector list')
+                bound='10 object shapes (2.0 and 2.1; SDO, SRO, SCO with extension, language content and observed-data with one- and two-character dictionary keys) x every path x near misses x 10 entry points; near misses also at every position of a selector list')
